@@ -8,9 +8,13 @@ import (
 	"fmt"
 	"io"
 	stdlog "log"
+	"net"
 	"net/http"
 	"net/url"
+	"os"
 	"strconv"
+	"sync"
+	"syscall"
 
 	restful "github.com/emicklei/go-restful/v3"
 )
@@ -37,6 +41,59 @@ func sameErr(a, b error) (same bool) {
 	return a == b
 }
 
+// ErrValues are the error values a failing bottom writer can be told to return besides its private
+// ones (FailSpec.Err): the sentinels a net/http connection really hands up — the same VALUE at every
+// failing call — and fresh errors that wrap one (errors.Is finds the sentinel, == does not).
+var ErrValues = []string{
+	"http.ErrBodyNotAllowed", "http.ErrHijacked", "http.ErrContentLength", "http.ErrHandlerTimeout",
+	"io.ErrShortWrite", "io.ErrClosedPipe", "io.EOF", "net.ErrClosed", "os.ErrDeadlineExceeded",
+	"wrapped(http.ErrBodyNotAllowed)", "wrapped(http.ErrContentLength)", "wrapped(io.ErrClosedPipe)", "net.OpError(EPIPE)",
+}
+
+var sentinels = map[string]error{
+	"http.ErrBodyNotAllowed": http.ErrBodyNotAllowed, "http.ErrHijacked": http.ErrHijacked,
+	"http.ErrContentLength": http.ErrContentLength, "http.ErrHandlerTimeout": http.ErrHandlerTimeout,
+	"io.ErrShortWrite": io.ErrShortWrite, "io.ErrClosedPipe": io.ErrClosedPipe, "io.EOF": io.EOF,
+	"net.ErrClosed": net.ErrClosed, "os.ErrDeadlineExceeded": os.ErrDeadlineExceeded,
+}
+
+// errValue makes the error of the failing Write call #call.
+func errValue(name string, call int) error {
+	if e, ok := sentinels[name]; ok {
+		return e
+	}
+	switch name {
+	case "wrapped(http.ErrBodyNotAllowed)":
+		return fmt.Errorf("bottom writer, Write call #%d: %w", call, http.ErrBodyNotAllowed)
+	case "wrapped(http.ErrContentLength)":
+		return fmt.Errorf("bottom writer, Write call #%d: %w", call, http.ErrContentLength)
+	case "wrapped(io.ErrClosedPipe)":
+		return fmt.Errorf("bottom writer, Write call #%d: %w", call, io.ErrClosedPipe)
+	case "net.OpError(EPIPE)":
+		return &net.OpError{Op: "write", Net: "tcp", Err: os.NewSyscallError("write", syscall.EPIPE)}
+	}
+	return &bottomErr{call: call}
+}
+
+// ErrValueHuman describes FailSpec.Err for replay files.
+func ErrValueHuman(name string) string {
+	if _, ok := sentinels[name]; ok {
+		return "the sentinel " + name + " (the same value at every failing call)"
+	}
+	return "a fresh " + name + " per failing call"
+}
+
+// bodyAllowed is net/http's bodyAllowedForStatus.
+func bodyAllowed(status int) bool {
+	switch {
+	case status >= 100 && status <= 199:
+		return false
+	case status == 204, status == 304:
+		return false
+	}
+	return true
+}
+
 // WEv is one Write call received by the bottom writer.
 type WEv struct {
 	Offered, Accepted int
@@ -52,16 +109,33 @@ type Bottom struct {
 	Writes   []WEv
 	Body     bytes.Buffer
 	fail     FailSpec
+	status   int // the status sent: the first WriteHeader's, 200 once a Write came first; 0 = none yet
 }
 
 func NewBottom(f FailSpec) *Bottom { return &Bottom{hdr: http.Header{}, fail: f} }
 
 func (b *Bottom) Header() http.Header { return b.hdr }
 
-func (b *Bottom) WriteHeader(s int) { b.Statuses = append(b.Statuses, s) }
+func (b *Bottom) WriteHeader(s int) {
+	b.Statuses = append(b.Statuses, s)
+	if b.status == 0 {
+		b.status = s
+	}
+}
 
 func (b *Bottom) Write(p []byte) (int, error) {
 	i := len(b.Writes)
+	if b.fail.HTTPLike {
+		// net/http: the status is the first WriteHeader's, 200 when Write comes first; a body after a
+		// status that allows none is refused, nothing is accepted
+		if b.status == 0 {
+			b.status = 200
+		}
+		if !bodyAllowed(b.status) {
+			b.Writes = append(b.Writes, WEv{len(p), 0, true})
+			return 0, http.ErrBodyNotAllowed
+		}
+	}
 	if b.fail.From >= 0 && (i == b.fail.From || (i > b.fail.From && !b.fail.Transient)) {
 		n := 0
 		if i == b.fail.From {
@@ -72,7 +146,7 @@ func (b *Bottom) Write(p []byte) (int, error) {
 		}
 		b.Body.Write(p[:n])
 		b.Writes = append(b.Writes, WEv{len(p), n, true})
-		return n, &bottomErr{call: i}
+		return n, errValue(b.fail.Err, i)
 	}
 	b.Body.Write(p)
 	b.Writes = append(b.Writes, WEv{len(p), len(p), false})
@@ -229,6 +303,49 @@ func Execute(s Seq) (out Real) {
 		}()
 		return out
 	}
+	if s.Mode == "route-miss" {
+		// through a container, but route selection fails: the service error handler makes the calls
+		// on the Response the container filters see; a container filter is the observer
+		c, req := missSetup(s.Miss, s.JSR)
+		ran := false
+		if s.Handler != "default" {
+			c.ServiceErrorHandler(func(se restful.ServiceError, req *restful.Request, resp *restful.Response) {
+				ran = true
+				runOps(resp, spy, s.Ops, &out)
+			})
+		}
+		c.Filter(func(req *restful.Request, resp *restful.Response, chain *restful.FilterChain) {
+			spy = &Spy{inner: resp.ResponseWriter}
+			resp.ResponseWriter = spy
+			if s.Handler == "default" {
+				// the container's own handler makes the call: observe around it
+				chain.ProcessFilter(req, resp)
+				if len(s.Ops) == 1 {
+					// the container discards what its handler's WriteErrorString returned; GenSeq lets no
+					// Write fail in these cases, and then nil is all it can return
+					out.Calls = append(out.Calls, Obs{Status: resp.StatusCode(), Length: resp.ContentLength(), Ret: "0",
+						ErrSet: resp.Error() != nil, Events: append([]Event{}, spy.Events...)})
+				}
+			} else {
+				chain.ProcessFilter(req, resp)
+			}
+			out.Final = &[2]int{resp.StatusCode(), resp.ContentLength()}
+		})
+		if len(s.Ops)%3 == 1 {
+			// a second container filter that only passes on
+			c.Filter(func(req *restful.Request, resp *restful.Response, chain *restful.FilterChain) {
+				chain.ProcessFilter(req, resp)
+			})
+		}
+		c.Dispatch(bottom, req)
+		if s.Handler != "default" && !ran {
+			panic("harness: the service error handler did not run")
+		}
+		if out.Final == nil {
+			panic("harness: the container filter did not run")
+		}
+		return out
+	}
 	// through a container: route function = the calls, trailing container filter = the observer
 	c := restful.NewContainer()
 	c.EnableContentEncoding(coding != "")
@@ -285,6 +402,94 @@ func Execute(s Seq) (out Real) {
 	return out
 }
 
+// MissKinds are the ways route selection fails.
+var MissKinds = []string{"404", "404-no-service", "405", "406", "415"}
+
+// missSetup builds a container with one web service and the request of the given kind, which no
+// route of it admits.
+func missSetup(kind string, jsr bool) (*restful.Container, *http.Request) {
+	c := restful.NewContainer()
+	if jsr {
+		c.Router(restful.RouterJSR311{})
+	}
+	ws := new(restful.WebService)
+	ws.Path("/r")
+	nop := func(req *restful.Request, resp *restful.Response) {
+		panic("harness: a route function ran on a request built to miss")
+	}
+	ws.Route(ws.GET("/x").Produces(restful.MIME_XML).To(nop))
+	ws.Route(ws.POST("/y").Consumes(restful.MIME_JSON).To(nop))
+	c.Add(ws)
+	req := &http.Request{Method: "GET", URL: &url.URL{Path: "/r/x"}, Header: http.Header{}, Body: http.NoBody}
+	switch kind {
+	case "404":
+		req.URL.Path = "/r/nope"
+	case "404-no-service":
+		req.URL.Path = "/elsewhere"
+	case "405":
+		req.Method = "DELETE"
+	case "406":
+		req.Header.Set("Accept", restful.MIME_JSON)
+	case "415":
+		req.Method, req.URL.Path = "POST", "/r/y"
+		req.Header.Set("Content-Type", "text/plain")
+		req.Header.Set("Content-Length", "5")
+		req.ContentLength = 5
+		req.Body = io.NopCloser(bytes.NewReader([]byte("hello")))
+	default:
+		panic("harness: unknown miss kind " + kind)
+	}
+	return c, req
+}
+
+// MissHuman describes the request of a miss kind.
+func MissHuman(kind string) string {
+	const cfg = " on a container whose only web service (root /r) has GET /x producing application/xml and POST /y consuming application/json"
+	switch kind {
+	case "404":
+		return "GET /r/nope" + cfg
+	case "404-no-service":
+		return "GET /elsewhere" + cfg
+	case "405":
+		return "DELETE /r/x" + cfg
+	case "406":
+		return "GET /r/x with Accept: application/json" + cfg
+	case "415":
+		return "POST /r/y with Content-Type: text/plain and a 5-byte body" + cfg
+	}
+	return kind
+}
+
+var (
+	missMu    sync.Mutex
+	missCache = map[string][2]int{}
+)
+
+// MissFacts measures, by a shadow run with a ServiceErrorHandler that only records, which
+// ServiceError route selection produces for the request of the kind: its Code and len(Message).
+// What the container's default handler does with it is WriteErrorString(Code, Message)
+// (container.go writeServiceError); which code and text a miss gets is C02/C03's subject, here it
+// is data.
+func MissFacts(kind string, jsr bool) (code, msgLen int) {
+	key := kind + fmt.Sprint(jsr)
+	missMu.Lock()
+	defer missMu.Unlock()
+	if f, ok := missCache[key]; ok {
+		return f[0], f[1]
+	}
+	c, req := missSetup(kind, jsr)
+	code = -1
+	c.ServiceErrorHandler(func(se restful.ServiceError, req *restful.Request, resp *restful.Response) {
+		code, msgLen = se.Code, len(se.Message)
+	})
+	c.Dispatch(NewBottom(FailSpec{From: -1}), req)
+	if code < 0 {
+		panic("harness: the request of miss kind " + kind + " was routed")
+	}
+	missCache[key] = [2]int{code, msgLen}
+	return code, msgLen
+}
+
 // crossCheck relates the recorder beneath the Response to the bottom writer.
 func crossCheck(s Seq, out *Real, spy *Spy) string {
 	var hs []int
@@ -297,12 +502,12 @@ func crossCheck(s Seq, out *Real, spy *Spy) string {
 		}
 	}
 	if fmt.Sprint(hs) != fmt.Sprint(out.Bottom.Statuses) {
-		return fmt.Sprintf("statuses handed down %v, bottom writer received %v", hs, out.Bottom.Statuses)
+		return fmt.Sprintf("statuses the observed Response handed down %v, bottom writer received %v", hs, out.Bottom.Statuses)
 	}
 	coding := s.Coding()
 	if coding == "" {
 		if fmt.Sprint(ws) != fmt.Sprint(out.Bottom.Writes) {
-			return fmt.Sprintf("writes handed down %v, bottom writer received %v", ws, out.Bottom.Writes)
+			return fmt.Sprintf("writes the observed Response handed down %v, bottom writer received %v", ws, out.Bottom.Writes)
 		}
 		return ""
 	}
